@@ -31,8 +31,34 @@ func appendsOf(elem *types.Named) Sel {
 // fieldAddrOf reports whether v is the address of the given field.
 func fieldAddrOf(f *types.Var) func(ssa.Value) bool {
 	return func(v ssa.Value) bool {
-		fa, ok := v.(*ssa.FieldAddr)
-		return ok && ir.FieldOfAddr(fa) == f
+		if fa, ok := v.(*ssa.FieldAddr); ok {
+			return ir.FieldOfAddr(fa) == f
+		}
+		// the address of a local that was set once, to a copy of the field
+		// (`prev := hdr.PrevBlock; prev.IsEqual(..)`)
+		a, ok := v.(*ssa.Alloc)
+		if !ok {
+			return false
+		}
+		var stores []*ssa.Store
+		for _, r := range ir.Refs(a) {
+			if st, isSt := r.(*ssa.Store); isSt && st.Addr == ssa.Value(a) {
+				stores = append(stores, st)
+			}
+		}
+		if len(stores) != 1 {
+			return false
+		}
+		switch x := stores[0].Val.(type) {
+		case *ssa.UnOp:
+			fa, isFA := x.X.(*ssa.FieldAddr)
+			return x.Op == token.MUL && isFA && ir.FieldOfAddr(fa) == f
+		case *ssa.Field:
+			if st, isStruct := x.X.Type().Underlying().(*types.Struct); isStruct {
+				return st.Field(x.Field) == f
+			}
+		}
+		return false
 	}
 }
 
